@@ -4,8 +4,10 @@
           mapping[:, f] under the same guard; mapping starts as identity and is only self-gathered; DHTV works on a copy.
   CHAIN   greedy aligner: mapping[:, f] = mapping[mapping[:, f-1], f] composes with the already composed predecessor
           in increasing f; first column is the identity.
-Recovery of a consistent order under the 70 % / two-thirds conditions, identity on consistent masks and plan coverage
-are statements over all inputs / an enumeration over configurations, not decidable by a static rule (not claimed).
+  PLAN    necessary condition of plan coverage: on every outcome of the branch conditions of `alignment_plan` some segment is stretched
+          to each band edge (0 and F).
+Recovery of a consistent order under the 70 % / two-thirds conditions, identity on consistent masks and full plan coverage
+(an enumeration over configurations) are not decidable by a static rule (not claimed).
 """
 from ..model import AnalysisError
 from ..terms import T, walk_terms
@@ -15,8 +17,72 @@ from . import c14
 P = 'pb_bss.permutation_alignment::'
 
 
+def _atoms(c, acc):
+    if c.op == 'unop' and c.args[0] == 'Not':
+        _atoms(c.args[1], acc)
+    elif c.op == 'bool':
+        for x in c.args[1]:
+            _atoms(x, acc)
+    else:
+        acc.setdefault(id(c), c)
+
+
+def _holds(c, env):
+    if c.op == 'unop' and c.args[0] == 'Not':
+        return not _holds(c.args[1], env)
+    if c.op == 'bool':
+        vals = [_holds(x, env) for x in c.args[1]]
+        return all(vals) if c.args[0] == 'And' else any(vals)
+    return env[id(c)]
+
+
+def check_plan_edges(run, A):
+    """necessary condition of plan coverage, decided over the (finitely many) outcomes of the branch conditions of `alignment_plan`:
+    on every path some segment end is set to F = stft_size // 2 + 1 and some segment start is set to 0 (the outermost segments are
+    stretched to the band edges whichever of the two segment lists is empty)"""
+    import itertools
+    q = P + 'DHTVPermutationAlignment.alignment_plan'
+    fn = A.prog.func(q)
+    g = A.graphs.get(fn)
+    stores = [e for e in g.events if e.kind == 'store']
+
+    def is_F(v):
+        v = strip_views(v)
+        return v.op == 'binop' and v.args[0] == 'Add' and const_val(v.args[2]) == 1 and strip_views(v.args[1]).op == 'binop' and strip_views(v.args[1]).args[0] == 'FloorDiv'
+    def has(v, pred):
+        v = strip_views(v)
+        return pred(v) or (v.op in ('list', 'tuple') and any(pred(strip_views(x)) for x in v.args[0]))
+    groups = {'upper band edge F': [e for e in stores if has(e.term.args[2], is_F)],
+              'lower band edge 0': [e for e in stores if has(e.term.args[2], lambda v: const_val(v) == 0)]}
+    rets = [e for e in g.events if e.kind == 'return']
+    if not rets:
+        raise AnalysisError('alignment_plan: return not found')
+    # conditions under which the plan is returned at all (e.g. "the configuration was not rejected by the raise above") are no case distinctions
+    reach = set.intersection(*[{(id(c), pol) for c, pol in e.guards} for e in rets])
+    if not all(groups.values()):
+        raise AnalysisError('alignment_plan: stores that stretch the outermost segments to 0 / F not found')
+    for what, evs in groups.items():
+        evs = [type('G', (), dict(guards=[(c, pol) for c, pol in e.guards if (id(c), pol) not in reach], node=e.node)) for e in evs]
+        atoms = {}
+        for e in evs:
+            for c, _ in e.guards:
+                _atoms(c, atoms)
+        keys = list(atoms)
+        uncovered = None
+        if len(keys) <= 6:
+            for vals in itertools.product((True, False), repeat=len(keys)):
+                env = dict(zip(keys, vals))
+                if not any(all(_holds(c, env) == pol for c, pol in e.guards) for e in evs):
+                    uncovered = env
+                    break
+        run.check(uncovered is None and len(keys) <= 6, 'PLAN', f'DHTV.alignment_plan: the {what} is reached on every path', fn.loc(evs[0].node), f'{len(evs)} stores, {len(keys)} branch conditions',
+                  f'there is an outcome of the branch conditions under which no segment is stretched to the {what}: the plan leaves the bins between its outermost segment and '
+                  f'the band edge unvisited', construct=f'PLAN::{q}::{what.split()[0]}-edge')
+
+
 def check(run):
     A = run.A
+    check_plan_edges(run, A)
     run.explanation = (
         'Only the net-reordering clause is decided, structurally: in DHTV the per-bin permutation is applied with the same index vector, bin and guard to the working features and to '
         'the running mapping, which starts as the identity and is only self-gathered by assignments of a score matrix, on a copy of the input; in the greedy aligner the adjacent-bin '
